@@ -87,7 +87,7 @@ META = {
             "REQUIRED_PROBES": {"quick": ["tree_complete", "kind_enum_only", "kind_mixed", "kind_reparam_only"],
                                 "thorough": ["tree_complete", "kind_enum_only", "kind_mixed", "kind_reparam_only", "enum_exact_checked", "cond"] +
                                             ["p_" + n for n in ("flip_enum flip_enum_parallel cat_enum_parallel normal_reparam uniform_reparam mvn_reparam "
-                                                                "mvn_diag_reparam flip_mvd flip_reinforce normal_reinforce geometric_reinforce mvn_reinforce").split()]}},
+                                                                "mvn_diag_reparam normal_reparam_vec uniform_reparam_vec flip_mvd flip_reinforce normal_reinforce geometric_reinforce mvn_reinforce").split()]}},
     "C08": {"LEVEL": "exploration",
             "RULE": "case = (i) generated per-lane function (deterministic code, log-density sites, TRACER echo/keyprobe sites, real normals with "
                     "tiny scale, sample_shape sites, unmapped higher-rank parameters, keyword parameters, scan / cond / nested modular_vmap) x axis "
@@ -155,7 +155,8 @@ META = {
             "ASSUMPTIONS": COMMON_ASSUME + ["scipy.stats is the reference for densities / CDFs of the documented parameterisations",
                                             "logpdf and normalisation clauses are op-level comparisons (pure functions); only the sampler clause is simulated",
                                             "two-stage sequential test: p<1e-6 twice, second batch 8x larger with a fresh key"],
-            "REQUIRED_PROBES": {"quick": ["logpdf_points", "normalisation", "sampler_tests", "mode_sample_shape", "mode_mvmap_lanes", "mode_vmap_keys"],
+            "REQUIRED_PROBES": {"quick": ["logpdf_points", "normalisation", "sampler_tests", "mode_sample_shape", "mode_mvmap_lanes", "mode_vmap_keys",
+                                          "mode_kw_scalar_then_batched", "mode_kw_batched_then_scalar"],
                                 "thorough": ["logpdf_points", "normalisation", "sampler_tests"] + ["d_" + n for n in (
                                     "bernoulli flip beta categorical geometric normal uniform exponential poisson multivariate_normal dirichlet binomial gamma "
                                     "log_normal student_t laplace half_normal inverse_gamma weibull cauchy chi2 multinomial negative_binomial zipf user_logistic user_gumbel").split()]}},
@@ -286,8 +287,8 @@ META = {
             "golden = the same probe evaluated in a pristine interpreter (helper process restarted every 20 probes)",
             "cross-transformation equality uses rtol 1e-5 on float leaves (eager vs jit differ by <= 4.3e-7 rel., measured); "
             "same-transformation repeats are compared bit for bit"],
-        "REQUIRED_PROBES": {"quick": ["probe_points", "cfg_jit", "cfg_vmap"],
-                            "thorough": ["probe_points", "cfg_jit", "cfg_vmap", "cfg_jitvmap"]},
+        "REQUIRED_PROBES": {"quick": ["probe_points", "cfg_jit", "cfg_vmap", "cfg_rebuilt"],
+                            "thorough": ["probe_points", "cfg_jit", "cfg_vmap", "cfg_jitvmap", "cfg_rebuilt"]},
     },
 }
 
